@@ -342,7 +342,8 @@ def _align_bookkeeping(V):
         calls.append((a[0], a[1], R, r))
         return (R, r)
     ref = Obj(I.builtins["object"], {"coords": NP.mk([[V.sym(f"ref{i}{k}", "real") for k in range(3)] for i in range(2)])}, tag="refgeom")
-    idxs = ListV([ListV([0, 1]), ListV([1, 2])])
+    # the second mapping lists its atoms in descending order: the fit must see the atoms in the order the caller gave
+    idxs = ListV([ListV([0, 1]), ListV([2, 1])])
     V.witness(lambda ev: {"op": "alignment-selection", "receiver": which, "rmsds": [ev(c[3]) for c in calls], "signature": "alignment-selection"})
     V.cover()
     if which == "ensemble":
@@ -355,6 +356,13 @@ def _align_bookkeeping(V):
         ok = isinstance(rmsds, ListV) and len(rmsds.items) == 2 and len(calls) == 4 and isinstance(rots, NdArr) and rots.tail == (2, 3, 3)
         V.ensure("post/one-fit-per-conformer-and-mapping", z3.BoolVal(ok))
         if ok:
+            ec = e.fields["_coords"].data
+            pairs_ok = []
+            for c in range(2):
+                for mi, order in enumerate(([0, 1], [2, 1])):
+                    sub = NP.asarray(I, calls[2 * c + mi][0]).data
+                    pairs_ok.append(I.and_(len(sub) == 2, *[M._same(I, sub[r][k], ec[c][order[r]][k]) for r in range(2) for k in range(3)]))
+            V.ensure("post/each-fit-sees-the-mapped-atoms-in-the-caller's-order-against-the-reference", I.and_(*pairs_ok))
             for c in range(2):
                 r0, r1 = calls[2 * c][3].z, calls[2 * c + 1][3].z
                 V.ensure(f"post/reported-rmsd-is-the-smallest-of-this-conformer's-fits/{c}", Z(rmsds.items[c]) == z3.If(r1 < r0, r1, r0))
